@@ -31,6 +31,25 @@ THEOREMS = [
     "C06_if_pinned_witness",
     "C06_callback_handles_what_local_handles",
     "C06_callback_pinned_witness",
+    "C06_nest_terminates",
+    "C06_fine_no_downstream",
+    "C06_fine_outputs_kept",
+    "C06_fine_failed_marked",
+    "C06_fine_reported",
+    "C06_fine_parked_blocks_exit",
+    "C06_fine_nobody_running",
+    "C06_flow_failed_emits_failed_only",
+    "C06_flow_contained",
+    "C06_flow_no_downstream",
+    "C06_flow_original_kept",
+    "C06_flow_one_error_per_child",
+    "C06_flow_raises_iff",
+    "C06_flow_cause",
+    "C06_flow_pinned_witness",
+    "C06_kinds_proposed",
+    "C06_kinds_head_partial",
+    "C06_kinds_head_witness",
+    "C06_kinds_vanish_witness",
 ]
 RULE = (
     "(dag) random DAGs (2..N term nodes) x every kind of fault position (starting node, inner node, two at once) x "
@@ -43,7 +62,11 @@ RULE = (
     "raised by a leaf, concurrent.futures errors, ...), random and laziest schedules (the sibling completes after the "
     "failure has come up), optional successful pre-run; a sweep class x depth x starting/signal-started x "
     "local/executor on a fixed chain; (flow) hand-wired flows: run signals wired by hand, nodes triggered several "
-    "times, `If` nodes with branches, a failing `If`; (base) the same trees with KeyboardInterrupt. "
+    "times, `If` nodes with branches, a failing `If` (those without executor children co-simulated on C02's machine); "
+    "(base) the same trees with KeyboardInterrupt; (fine) DAGs with failing executor children, the done-callbacks on "
+    "their own threads stepped in two halves, random and DFS schedules of the halves; (ktab) Boom / KeyboardInterrupt / "
+    "SystemExit / GeneratorExit / custom BaseException x every placement of executors on the path from the raising "
+    "node up x depth 0..3, an in-flight sibling completing last at every level. "
     "Non-trivial = a fault was actually hit"
 )
 TRUSTED = c01.TRUSTED + [
@@ -53,11 +76,15 @@ TRUSTED = c01.TRUSTED + [
     "its own loop has ended, whether it runs locally (the parent's thread is inside it) or on an executor; the driver "
     "replays the real call stack with the recorded completions; values are compared as ND/previous/new only (value "
     "flow through macro IO is C09's subject), the cause chain as FailedChildError* + identity of the raised object",
-    "hand-wired flows (any-of run inputs, If branches) and KeyboardInterrupt are checked by the oracle on the "
-    "implementation only; the Lean content for them are the three small pinned/repaired models of Model/ExecNest.lean",
+    "hand-wired flows: Model/FlowFail.lean wraps C02's Signal.runNode with the transcribed except clause of the "
+    "composite (_collect_child_error); the harness observes the real calls of that method through a class-level "
+    "wrapper that calls the original; flows WITH executor children are checked by the oracle only",
+    "kinds of raised objects: ExecNest.propagate is a function of the path (kind, local/executor at every level), not "
+    "part of the interleaving machine; the controllable executor stores non-Exceptions in the future and lets a "
+    "done-callback's escaping BaseException end the job silently, as a real pool's worker thread does",
 ]
 ASSUMPTIONS = c01.ASSUMPTIONS
-CASE_TIMEOUT = 30
+CASE_TIMEOUT = 150
 
 STATS_VARIANT = c01.STATS_VARIANT
 
@@ -89,6 +116,21 @@ def gen_cases(rng, tier):
     for _ in range(20 if tier == "quick" else 100):
         yield {"kind": "single", "suppress": rng.random() < 0.7, "prerun": rng.random() < 0.7,
                "listener": True}
+    # the fine interleaving with faults: a failing executor child's callback parked between its two calls
+    for _ in range(40 if tier == "quick" else 500):
+        n = rng.randint(2, 5 if tier == "quick" else 7)
+        order, slots = c01.gen_dag(rng, n, 0.6)
+        ex = [i for i in range(n) if rng.random() < 0.6] or [rng.randrange(n)]
+        # prefer failing nodes that are on the executor
+        fl = sorted(set(rng.sample(ex, 1) + ([rng.randrange(n)] if rng.random() < 0.3 else [])))
+        yield {"kind": "dag", "n": n, "order": order, "slots": slots, "exec": ex, "fails": fl, "mode": "ctl",
+               "fine": True, "choices": [rng.randint(0, 5) for _ in range(6 * n)], "prerun": False}
+    for _ in range(4 if tier == "quick" else 40):
+        n = rng.randint(2, 3 if tier == "quick" else 4)
+        order, slots = c01.gen_dag(rng, n, 0.7)
+        yield {"kind": "dag", "n": n, "order": order, "slots": slots, "exec": list(range(n)),
+               "fails": [rng.randrange(n)], "mode": "ctl", "fine": True, "choices": [], "prerun": False,
+               "dfs": 40 if tier == "quick" else 300}
     for key in N_EXC():
         yield {"kind": "single", "suppress": rng.random() < 0.6, "prerun": rng.random() < 0.6, "listener": True,
                "exc": key}
@@ -113,10 +155,17 @@ def gen_cases(rng, tier):
     # every completion order at every schedule point (stateless DFS), small trees
     for _ in range(6 if quick else 150):
         c = gen_nest_case(rng, rng.choice([1, 1, 2]), N.EXCEPTIONS, n_max=3)
-        yield {**c, "choices": [], "prerun": False, "dfs": 25 if quick else 150}
+        yield {**c, "choices": [], "prerun": False, "dfs": 25 if quick else 100}
     # hand-wired flows: nodes triggered more than once, `If` branches (oracle only)
     for _ in range(120 if quick else 2500):
         yield gen_flow_case(rng, N.EXCEPTIONS)
+    # kinds of raised objects x local/executor at every level of the path x depth: the whole table
+    import itertools
+
+    for depth in ((0, 1, 2) if quick else (0, 1, 2, 3)):
+        for execs in itertools.product([False, True], repeat=depth + 1):
+            for key in ("Boom", "KeyboardInterrupt", "SystemExit", "GeneratorExit", "Abort"):
+                yield {"kind": "ktab", "exc": key, "depth": depth, "execs": list(execs)}
     # the one non-Exception class the library's own exception path names: KeyboardInterrupt (oracle only)
     for depth, count in ((0, 10 if quick else 60), (1, 14 if quick else 80), (2, 10 if quick else 60)):
         for _ in range(count):
@@ -144,8 +193,14 @@ def corpus():
            "prerun": False}
     yield {"kind": "nest", "prog": top, "fails": {"2.1.1": "IndexError"}, "exec": ["0", "2.1"], "mode": "ctl",
            "choices": [], "prerun": True}
+    # fine interleaving: a -> b, a on the executor and raising; its callback parked between its two calls
+    yield {"kind": "dag", "n": 2, "order": [0, 1], "slots": {"0": [[], [], []], "1": [[0], [], []]}, "exec": [0],
+           "fails": [0], "mode": "ctl", "fine": True, "choices": [0, 0, 0, 0], "prerun": False}
     # KeyboardInterrupt raised by a function that runs on an executor (a -> b -> c, b out)
     yield KI_WITNESS
+    # sys.exit() in a node function, locally and on the executor
+    yield {"kind": "ktab", "exc": "SystemExit", "depth": 0, "execs": [False]}
+    yield {"kind": "ktab", "exc": "SystemExit", "depth": 1, "execs": [True, False]}
     # hand-wired flows: a failed `If` after an earlier True; a node triggered again after its function raised
     yield {"kind": "flow", "n": 2, "order": [0, 1], "edges": [[0, 1, "true"]], "starters": [0], "ifs": {"0": True},
            "fails": {"0": "ValueError"}, "exec": [], "choices": [], "prerun": True}
@@ -321,10 +376,17 @@ def _run_once_with_chain(case):
 
 
 def run_impl(case):
+    if case["kind"] == "ktab":
+        r = _run_ktab(case)
+        return {"obs": _ktab_obs(r, "H"), "r": r, "runs": [r],
+                "stats": {"ktab": 1, "fault_hit": 1, f"ktab_kind:{_kind_of(case['exc'])}": 1,
+                          f"ktab_depth:{case['depth']}": 1, f"ktab_caller:{r['ktab']['caller'].split(':')[0]}": 1,
+                          "ktab_recovery_file": int(r["recovery_file"])}}
     if case["kind"] == "flow":
         r = _run_flow(case)
         stats = {"flow": 1, "fault_hit": 1 if r["raised"] else 0, f"outcome:{r['outcome']}": 1,
                  "flow_if_failed": sum(1 for h in r["raised"] if h in case["ifs"]),
+                 "flow_cosimulated": int(not case["exec"]), "flow_refusals": sum(1 for c in r["collected"] if "refused" in c),
                  "flow_runs_of_some_node>1": int(any(r["exec_log"].count(i) > 1 for i in set(r["exec_log"])))}
         return {"obs": [str(sorted((k, str(v)) for k, v in r.items()))], "r": r, "runs": [r], "stats": stats}
     if case["kind"] == "nest":
@@ -355,6 +417,19 @@ def run_impl(case):
         r = _single(case)
         return {"obs": [str(sorted(r.items()))], "r": r, "runs": [r],
                 "stats": {"single": 1, f"suppress:{case['suppress']}": 1}}
+    if case.get("fine"):
+        if case.get("dfs"):
+            from .execsim import explore
+
+            runs = [res for _p, res in explore(lambda ch: _run_fine(case, ch), limit=case["dfs"])]
+        else:
+            runs = [_run_fine(case, list(case["choices"]))[0]]
+        r = runs[0]
+        hit = [i for i in case["fails"] if i in r["calls"]]
+        return {"obs": _fine_obs(case, r), "r": r, "runs": runs,
+                "stats": {"fine_fault_cases": 1, "fault_hit": 1 if hit else 0, "fine_schedules": len(runs),
+                          "fine_failing_callback_parked": sum(x["parked_failing"] for x in runs),
+                          f"outcome:{r['outcome']}": 1}}
     if case.get("force_starters"):
         # hash-seed independent version of the "failing starting node" scenario: hand-wired flow
         r = _forced(case)
@@ -413,8 +488,13 @@ def nontrivial(case, impl):
 
 
 def model_input(case, impl):
-    if "r" not in impl or case.get("base") or case["kind"] == "flow":  # harness error / outside the model
+    if "r" not in impl or case.get("base"):  # harness error (reported by the engine) / outside the model
         return ["n 0", "run"]
+    if case["kind"] == "ktab":
+        return [f"ktab {_kind_of(case['exc'])} " + " ".join("1" if e else "0" for e in case["execs"] + [False])]
+    if case["kind"] == "flow":
+        # Signal.compositeRun is the loop with local children: flows without executor children are co-simulated
+        return _flow_model_input(case, impl["r"]) if not case["exec"] else ["n 0", "run"]
     if case["kind"] == "nest":
         lines = []
         for k, r in enumerate(impl["runs"]):
@@ -424,11 +504,40 @@ def model_input(case, impl):
         return lines
     if case["kind"] != "dag" or case.get("prerun") or case.get("force_starters"):
         return ["n 0", "run"]
+    if case.get("fine"):
+        lines = []
+        for k, r in enumerate(impl["runs"]):
+            if k:
+                lines.append("reset")
+            lines.extend(c01._model_input_one(case, r))
+        return lines
     return c01._model_input_one(case, impl["r"])
 
 
 def diff(case, impl, model):
-    if case["kind"] == "flow" or (case["kind"] == "nest" and case.get("base")):
+    if case["kind"] == "ktab":
+        # the tree must behave as the model's `head` configuration or as the `proposed` one
+        best = None
+        for tag in ("H", "P"):
+            mine = _ktab_obs(impl["r"], tag)
+            theirs = [l for l in model if l.startswith(f"K {tag} ")]
+            if mine == theirs:
+                STATS_VARIANT["K" + tag] = STATS_VARIANT.get("K" + tag, 0) + 1
+                return None
+            k = next((k for k, (a, b) in enumerate(zip(mine, theirs)) if a != b), 0)
+            if best is None:
+                best = {"index": k, "impl": mine[k] if k < len(mine) else None,
+                        "model": theirs[k] if k < len(theirs) else None, "variant": tag}
+        return best
+    if case["kind"] == "flow":
+        if case["exec"]:
+            return None
+        mine = _flow_obs(case, impl["r"])
+        if mine == list(model):
+            return None
+        k = next((k for k, (a, b) in enumerate(zip(mine, model)) if a != b), min(len(mine), len(model)))
+        return {"index": k, "impl": mine[k] if k < len(mine) else None, "model": model[k] if k < len(model) else None}
+    if case["kind"] == "nest" and case.get("base"):
         return None  # interrupts are outside the model (they are not collected, they propagate as they are)
     if case["kind"] == "nest":
         chunks = [[]]
@@ -450,6 +559,22 @@ def diff(case, impl, model):
                     "trace": r["trace"]}
         return None
     if case["kind"] != "dag" or case.get("prerun") or case.get("force_starters"):
+        return None
+    if case.get("fine"):
+        chunks = [[]]
+        for l in model:
+            if l == "reset":
+                chunks.append([])
+            else:
+                chunks[-1].append(l)
+        if len(chunks) != len(impl["runs"]):
+            return {"index": -1, "impl": f"{len(impl['runs'])} runs", "model": f"{len(chunks)} chunks"}
+        for r, ch in zip(impl["runs"], chunks):
+            mine = _fine_obs(case, r)
+            if mine != ch:
+                k = next((k for k, (a, b) in enumerate(zip(mine, ch)) if a != b), min(len(mine), len(ch)))
+                return {"index": k, "impl": mine[k] if k < len(mine) else None, "model": ch[k] if k < len(ch) else None,
+                        "trace": r["trace"]}
         return None
     return c01._diff_one(case, impl["obs"], model)
 
@@ -480,6 +605,8 @@ def oracle(case, impl):
         return []
     if case["kind"] == "flow":
         return _flow_oracle(case, r)
+    if case["kind"] == "ktab":
+        return _ktab_oracle(case, r)
     if case["kind"] == "single":
         sup = case["suppress"]
         s = lambda c: {"clause": c, "kind": "single", "suppress": sup}  # noqa: E731
@@ -500,6 +627,12 @@ def oracle(case, impl):
             fails.append({"clause": "completion-announced-after-failure", "detail": str(r), "signature": s("no-ran")})
         return fails
 
+    if case.get("fine") and not impl.get("_one"):
+        for rr in impl["runs"]:
+            f = oracle(case, {"r": rr, "runs": [rr], "_one": True})
+            if f:
+                return f
+        return []
     hit = [i for i in case["fails"] if i in r["calls"]]
     on_exec = any(i in case["exec"] for i in hit)
     starter = bool(case.get("force_starters")) or any(
@@ -527,6 +660,11 @@ def oracle(case, impl):
     if any(run for run, _f in r["flags"].values()) or r["late_jobs"]:
         fails.append({"clause": "node-left-running", "detail": f"{r['flags']} late_jobs={r['late_jobs']}",
                       "signature": s("left-running")})
+    if r.get("fine") and (r["parked"] or r["unstarted_jobs"] or r["running_children"] or r["late"]):
+        fails.append({"clause": "node-left-running",
+                      "detail": f"callbacks half-way={r['parked']} jobs={r['unstarted_jobs']} "
+                                f"running_children={r['running_children']} signals fired after the run={r['late']}",
+                      "signature": {**s("left-running"), "fine": True}})
     # (c) outputs kept
     for i in hit:
         expect = r["before"][i] if r.get("before") else "ND"
@@ -764,7 +902,7 @@ def _run_job_c06(job):
         fut.set_result(res)
 
 
-def _Sched(choices, ident):
+def _Sched(choices, ident, late=()):
     """execsim.Scheduler with (1) a tolerant idle point: an idle `sleep` with nothing outstanding is just a sleep (the
     real loop re-tests its condition; a loop that keeps sleeping runs into the budget) and (2) `_run_job_c06`"""
     from .execsim import Scheduler, Stuck
@@ -793,8 +931,10 @@ def _Sched(choices, ident):
                 if self.spurious > 50:
                     raise Stuck("idle with nothing outstanding")
                 return
-            c = self._choose(len(self.jobs))
-            job = self.jobs.pop(c)
+            # jobs named in `late` complete only when nothing else is outstanding (a sibling that stays in flight)
+            cands = [k for k, j in enumerate(self.jobs) if self.ident(j[0]) not in late] or list(range(len(self.jobs)))
+            c = self._choose(len(cands))
+            job = self.jobs.pop(cands[c])
             self.trace.append(f"s:{self.ident(job[0])}")
             _run_job_c06(job)
 
@@ -853,7 +993,7 @@ def _run_nest(case):
         N.EPOCH[0] = 1
     for l, key in case["fails"].items():
         N.EXC[leaf_gid[_ppath(l)]] = key
-    sched = _Sched(list(case["choices"]), ident=lambda owner: _pstr(_node_path(owner)))
+    sched = _Sched(list(case["choices"]), ident=lambda owner: _pstr(_node_path(owner)), late=set(case.get("late", ())))
     exe = CtlExecutor(sched, case.get("mode", "ctl"))
     exe_plain = CtlExecutor(sched, "ctl")
     for l in case["exec"]:
@@ -913,6 +1053,7 @@ def _run_nest(case):
             "calls": {_pstr(p): calls.count(g) for p, g in leaf_gid.items()},
             "late_jobs": [sched.ident(j[0]) for j in sched.jobs],
             "options_seen": list(sched.options_seen),
+            "recovery_file": any(f.startswith("recovery") for _d, _s, fs in __import__("os").walk(".") for f in fs),
         }
         # what the outstanding jobs do when they complete after the run has returned (still under the scheduler:
         # a macro's late job runs its loop)
@@ -1216,7 +1357,7 @@ def gen_flow_case(rng, classes, n_max=6):
         mult[i] = (1 if i in starters else 0) + sum(mult[j] for j, t, _s in edges if t == i)
     return {"kind": "flow", "n": n, "order": order, "edges": edges, "starters": starters, "ifs": ifs,
             "fails": {str(i): rng.choice(classes) for i in fl},
-            "exec": sorted(i for i in range(n) if mult[i] <= 1 and rng.random() < 0.45),
+            "exec": [] if rng.random() < 0.55 else sorted(i for i in range(n) if mult[i] <= 1 and rng.random() < 0.45),
             "choices": [] if rng.random() < 0.4 else [rng.choice([0, 0, 0, 1, 2, 3]) for _ in range(40)],
             "prerun": rng.random() < 0.6}
 
@@ -1284,6 +1425,25 @@ def _run_flow(case):
     for i in case["exec"]:
         ns[i].executor = exe
     outcome, exc = "ok", None
+    import pyiron_workflow.nodes.composite as comp
+    from pyiron_workflow.mixin.run import ReadinessError
+
+    collected = []
+    orig_collect = getattr(comp.Composite, "_collect_child_error", None)
+    if orig_collect is not None:
+        def collect(self_, errors, accounted_for, child, error, n_started_before):
+            refused = len(self_.provenance_by_execution) == n_started_before
+            collected.append(f"{child.label[1:]}:{'refused' if refused else 'run'}")
+            return orig_collect(self_, errors, accounted_for, child, error, n_started_before)
+
+        comp.Composite._collect_child_error = collect
+    sig_index = {"ran": 0, "failed": 1, "true": 2, "false": 3}
+    conns = {}
+    for j in ns:
+        for name, k in sig_index.items():
+            ch = getattr(ns[j].signals.output, name, None)
+            if ch is not None and ch.connections:
+                conns[4 * j + k] = [int(c.owner.label[1:]) for c in ch.connections]
     with Instrument(sched):
         try:
             wf.run()
@@ -1292,7 +1452,25 @@ def _run_flow(case):
         except BaseException as e:  # noqa: BLE001
             outcome = f"raised:{type(e).__name__}"
             exc = e
+        finally:
+            if orig_collect is not None:
+                comp.Composite._collect_child_error = orig_collect
+        seen = "-"
+        if exc is not None:
+            cause = exc.__cause__
+            by_obj = {id(e): i for i, e in N.RAISED.items()}
+            if type(exc).__name__ != "FailedChildError" or id(exc) in by_obj:
+                seen = "raw:" + type(exc).__name__
+            elif cause is None:
+                seen = "fc none"
+            elif id(cause) in by_obj:
+                seen = f"fc orig:{by_obj[id(cause)]}"
+            elif type(cause) is ReadinessError:
+                seen = "fc refusal:" + str(cause).split(" ", 1)[0][1:]
+            else:
+                seen = "fc other:" + type(cause).__name__
         r = {
+            "collected": collected, "conns": conns, "seen": seen,
             "outcome": outcome, "chain_types": c06_chain(exc),
             "raised_is_orig": {str(i): any(e is x for x in _chain_objs(exc)) for i, e in N.RAISED.items()},
             "raised": sorted(str(i) for i in N.RAISED),
@@ -1396,3 +1574,224 @@ def _flow_shrink(case):
         yield {**case, "n": i, "order": [x for x in case["order"] if x != i],
                "edges": [e for e in case["edges"] if e[1] != i], "starters": [x for x in case["starters"] if x != i],
                "ifs": {k: v for k, v in case["ifs"].items() if k != str(i)}, "exec": [x for x in case["exec"] if x != i]}
+
+
+# =====================================================================================================
+# faults under the fine interleaving: the done-callback of an executor child on its own thread, in two halves
+# =====================================================================================================
+
+
+def _run_fine(case, choices):
+    """c01._run_once_fine with the fault table set and the exception kept"""
+    import pyiron_workflow.nodes.composite as comp
+
+    from . import nodes
+    from .execfine import FineInstrument, FineScheduler
+    from .execsim import CtlExecutor, Stuck, term_str
+
+    nodes.reset()
+    for i in case["fails"]:
+        nodes.FAIL[i] = {0}
+    wf, ns = c01.build(case)
+    sched = FineScheduler(choices, ident=lambda owner: owner.label[1:])
+    exe = CtlExecutor(sched, "ctl")
+    for i in case["exec"]:
+        ns[i].executor = exe
+    wiring = {}
+    lab = lambda l: int(l[1:])  # noqa: E731
+    outcome, exc = "ok", None
+    with FineInstrument(sched):
+        orig_on_run = comp.Composite._on_run
+
+        def on_run(self_):
+            if self_ is wf and not wiring:
+                wiring["starters"] = [int(n.label[1:]) for n in self_.starting_nodes]
+                wiring["down"] = {i: [int(c.owner.label[1:]) for c in ns[i].signals.output.ran.connections] for i in ns}
+            return orig_on_run(self_)
+
+        comp.Composite._on_run = on_run
+        try:
+            wf.run()
+        except Stuck as e:
+            outcome = f"stuck:{e}"
+        except BaseException as e:  # noqa: BLE001
+            outcome = f"raised:{type(e).__name__}"
+            exc = e
+        finally:
+            comp.Composite._on_run = orig_on_run
+            # the state at the moment run() returned — before anything still parked is released
+            snap = {
+                "exec_log": [lab(l) for l in wf.provenance_by_execution],
+                "done_log": [lab(l) for l in wf.provenance_by_completion],
+                "flags": {i: (bool(ns[i].running), bool(ns[i].failed)) for i in ns},
+                "outs": {i: term_str(ns[i].outputs.o.value) for i in ns},
+                "calls": [c[0] for c in nodes.CALL_LOG],
+                "running_children": sorted(lab(l) for l in wf.running_children),
+                "wf_running": bool(wf.running), "wf_failed": bool(wf.failed),
+                "parked": sorted(int(cb.k) for cb in sched.parked),
+                "unstarted_jobs": len(sched.jobs),
+            }
+            sched.release_all()
+    res = {"fine": True, "outcome": outcome, "exc_chain": _chain(exc), "before": None, "wiring": wiring,
+           "trace": list(sched.tokens), **snap,
+           "late": [int(t.split(":")[2]) for t in sched.tokens if t.startswith("L:")],
+           "calls_after_release": [c[0] for c in nodes.CALL_LOG], "late_jobs": len(sched.jobs),
+           # how long a failing child's callback stayed parked between its two calls (main-thread schedule points)
+           "parked_failing": sum(1 for t in sched.tokens if ":F:" in t and int(t.split(":")[2]) in case["fails"])}
+    return res, sched.options_seen
+
+
+def _fine_obs(case, r):
+    n = case["n"]
+    end = "exited" if r["outcome"] in ("ok", "raised:FailedChildError") else r["outcome"]
+
+    def st(i):
+        run, failed = r["flags"][i]
+        return "out" if run else "failed" if failed else ("done" if i in r["done_log"] else "idle")
+
+    failed = sorted(i for i in range(n) if r["flags"][i][1] and not r["flags"][i][0])
+    return [
+        "wf true",
+        f"Fr end {end}",
+        f"Fr exec [{','.join(map(str, r['exec_log']))}]",
+        f"Fr doneset [{','.join(map(str, sorted(r['done_log'])))}]",
+        "Fr st " + " ".join(f"{i}:{st(i)}" for i in range(n)),
+        "Fr calls " + " ".join(f"{i}:{r['calls'].count(i)}" for i in range(n)),
+        "Fr out " + " ".join(f"{i}:{r['outs'][i]}" for i in range(n)),
+        f"Fr running [{','.join(map(str, r['running_children']))}]",
+        f"Fr late [{','.join(map(str, r['late']))}]",
+        f"Fr outcome {'failedchild' if r['outcome'] == 'raised:FailedChildError' else r['outcome']}",
+        f"Fr errs [{','.join(map(str, failed))}]",
+        f"Fr mid [{','.join(map(str, r['parked']))}]",
+    ]
+
+
+def _flow_obs(case, r):
+    """a flow without executor children, in the format of the driver's `wrun`"""
+    ifs = sorted(int(i) for i in case["ifs"])
+    tv = {True: "T", False: "F"}
+    return [
+        f"W exec [{','.join(map(str, r['exec_log']))}]",
+        f"W done [{','.join(map(str, r['done_log']))}]",
+        f"W failed [{','.join(str(i) for i in range(case['n']) if r['flags'][str(i)][1])}]",
+        "W collect " + " ".join(r["collected"]),
+        "W truth " + " ".join(f"{i}:{'ND' if r['outs'][str(i)] == 'ND' else tv[r['truth'][str(i)]]}" for i in ifs),
+        f"W seen {r['seen']}",
+        "W queue 0",
+    ]
+
+
+def _flow_model_input(case, r):
+    lines = [f"wn {case['n']}"]
+    for i in sorted(int(i) for i in case["ifs"]):
+        lines.append(f"wif {i} {1 if case['ifs'][str(i)] else 0}")
+    for e in sorted(r["conns"], key=int):
+        lines.append(f"wconn {e} " + " ".join(map(str, r["conns"][e])))
+    lines.append("wstarters " + " ".join(map(str, case["starters"])))
+    lines.append("wfails " + " ".join(sorted(case["fails"], key=int)))
+    if case.get("prerun"):
+        lines.append("wpre")
+    lines.append("wrun")
+    return lines
+
+
+# =====================================================================================================
+# kinds of raised objects x the two exception paths x nesting depth (kind "ktab")
+# =====================================================================================================
+#
+# case = {"kind": "ktab", "exc": <key of FAMILY>, "depth": d, "execs": [leaf, innermost macro, ..., outermost macro]}
+# every composite: 0 -> 1 -> 2 and an independent 3 on the executor that completes last; child 1 is the next composite,
+# in the innermost one the raising function node.
+
+
+def _kind_of(key):
+    from . import nodes_c06 as N
+
+    t = N.exc_type(key)
+    return "exception" if issubclass(t, Exception) else "ki" if issubclass(t, KeyboardInterrupt) else "base"
+
+
+def _ktab_nest_case(case):
+    d = case["depth"]
+
+    def level(k):
+        kids = {"1": level(k - 1)} if k > 0 else {}
+        return {"n": 4, "order": [0, 1, 2, 3],
+                "slots": {"0": [[], [], []], "1": [[0], [], []], "2": [[1], [], []], "3": [[], [], []]},
+                "kids": kids, "gid": {str(i): None for i in range(4) if str(i) not in kids}, "ret": 2}
+
+    prog = level(d)
+    _number(prog)
+    path = [()]  # composites, outermost first
+    for _ in range(d):
+        path.append(path[-1] + (1,))
+    leaf = path[-1] + (1,)
+    on_path = [leaf] + list(reversed(path[1:]))  # the raising node, then the macros innermost first
+    ex = [_pstr(p) for p, e in zip(on_path, case["execs"]) if e]
+    sibs = [_pstr(c + (3,)) for c in path]
+    return {"kind": "nest", "prog": prog, "fails": {_pstr(leaf): case["exc"]}, "exec": sorted(ex + sibs), "mode": "ctl",
+            "choices": [], "prerun": False, "late": sibs, "base": True}, on_path + [()], list(reversed(path))
+
+
+def _run_ktab(case):
+    nc, on_path, comps = _ktab_nest_case(case)
+    r = _run_nest(nc)
+
+    def stat(p):
+        run, failed = r["flags"][_pstr(p)]
+        return "both" if run and failed else "leftRunning" if run else "failed" if failed else "clean"
+
+    chain = r["chain"].split()
+    kind = _kind_of(case["exc"])
+    if r["outcome"] == "ok":
+        caller = "nothing"
+    elif chain and chain[0].startswith("orig:"):
+        caller = f"raw:{kind}"
+    elif chain and chain[-1].startswith("orig:") and all(c == "fc" for c in chain[:-1]):
+        caller = f"chain:{kind}:{len(chain) - 1}"
+    else:
+        caller = "other:" + " ".join(chain)
+    r["ktab"] = {
+        "stat": [stat(p) for p in on_path],
+        # a composite whose loop was left at once: its in-flight sibling is still out when the run has returned
+        "aborted": [int(r["flags"][_pstr(c + (3,))][0] or _pstr(c + (3,)) in r["late_jobs"]) for c in comps],
+        "down": [int(r["calls"][_pstr(c + (2,))] > 0) for c in comps],
+        "caller": caller, "recovery": "yes" if r["recovery_file"] else "no",
+    }
+    return r
+
+
+def _ktab_obs(r, tag):
+    k = r["ktab"]
+    return [f"K {tag} stat " + " ".join(k["stat"]), f"K {tag} aborted " + " ".join(map(str, k["aborted"])),
+            f"K {tag} down " + " ".join(map(str, k["down"])), f"K {tag} caller {k['caller']}",
+            f"K {tag} recovery {k['recovery']}"]
+
+
+def _ktab_oracle(case, r):
+    k = r["ktab"]
+    kind = _kind_of(case["exc"])
+    fails = []
+
+    def sig(c):
+        return {"clause": c, "kind": "ktab", "exc_kind": kind, "on_exec": any(case["execs"])}
+
+    if r["outcome"].startswith("stuck"):
+        return [{"clause": "run-does-not-terminate", "detail": r["outcome"], "signature": sig("terminate")}]
+    if k["caller"] == "nothing":
+        fails.append({"clause": "error-does-not-reach-caller", "detail": f"{case['exc']}: run returned normally",
+                      "signature": sig("reaches-caller")})
+    elif k["caller"].startswith("other:"):
+        fails.append({"clause": "original-exception-lost", "detail": f"{case['exc']}: caller sees {r['chain_types']}",
+                      "signature": sig("cause")})
+    if any(s != "failed" for s in k["stat"]):
+        fails.append({"clause": "failing-node-flags",
+                      "detail": f"{case['exc']}, execs {case['execs']}: raising node and composites above it end {k['stat']}",
+                      "signature": sig("node-flags")})
+    if any(k["down"]):
+        fails.append({"clause": "downstream-of-failure-executed", "detail": f"{case['exc']}: downstream ran at levels {k['down']}",
+                      "signature": sig("no-downstream")})
+    if kind == "exception" and (any(k["aborted"]) or r["late_jobs"]):
+        fails.append({"clause": "node-left-running", "detail": f"siblings left out {k['aborted']} {r['late_jobs']}",
+                      "signature": sig("left-running")})
+    return fails
